@@ -337,3 +337,24 @@ func RuneCount(s string) int     { return len([]rune(s)) }
 func RuneAt(s string, i int) rune { return []rune(s)[i] }
 
 func RuneSource(r rune) rune { return r }
+
+// C13 intrinsics, native edition: documents are files doc_<n>.json rendered by the driver.
+func DocBytes(doc int, path string) []byte {
+	if path != "" {
+		panic("zzvrt: native DocBytes supports the root only")
+	}
+	b, err := os.ReadFile(outFile(fmt.Sprintf("doc_%d.json", doc)))
+	if err != nil {
+		panic("zzvrt: " + err.Error())
+	}
+	return b
+}
+func DocAlias(doc int, pairs ...string) int { d := nDoc; nDoc++; return d }
+func DocWrapArray(doc int, path string) int { d := nDoc; nDoc++; return d }
+func SameParsed(a, b any, ignoreFields ...string) bool {
+	rec := accBool("SameParsed")
+	if r, ok := nativeSameParsed(a, b, ignoreFields); ok {
+		return r
+	}
+	return rec
+}
